@@ -91,6 +91,13 @@ def run(ctx):
             ctx.violation("writepath:soak:%s" % str(m.get("what")).split(": ", 2)[-1][:40], m,
                           what="a long history of acknowledged bulks (WritePath.tla: AckedDurable / NoForeignBytes): " + str(m.get("what"))[:300])
     ctx.cov["soak"] = {"histories": nsoak, "bulks": sk.get("bulks"), "check_points": sk.get("evals")}
+    # 3c. crashes at every step of the seal and of the release that follows it (Lifecycle.tla's crash states, C08/C15's
+    # machinery): the acknowledged documents of the fraction must be served after the restart whatever file set the
+    # crash left behind (the random process deaths of stage 4 reach the few-instruction windows of Release only by luck)
+    from checks import _lifecycle as lc
+    lc.design(ctx)
+    lsumm = lc.replay_states(ctx, lc.states(ctx, lambda c: True), "writepath")
+    ctx.cov["lifecycle_crash_states"] = lsumm.get("cases")
     # 4. whole-store histories (several fractions, rotation, seals, retention, process deaths at hook points)
     sruns, sev = _store.histories(ctx, "writepath", runs=120 if quick else 2500, scenario_runs=0)
     ctx.cov["traces_validated_against_impl"] = summ["cases"] + runs + sruns
